@@ -833,6 +833,9 @@ pub fn plan(p: u32, tier: &str) -> Vec<Run> {
             add(few(late("bigshapes-ff-orders-few", false)), families::big_shapes());
             add(few(late("ephtrees-ff-orders-few", false)), families::eph_trees());
             add(few(late("ephchainsA-ff-orders-few", false)), families::eph_chains_below_always());
+            // a resume evaluation (build, one change with every fault, evaluate again) must be as independent
+            // of the schedule as any other: the follow-up evaluation is explored under all schedules
+            add(alone4(), families::slots_each_alone(4));
             add(few(late("ephtrees3-ff-orders-few", false)), families::eph_trees3());
             add(few(chains(false)), families::chains(6));
             let mut cm = few(chains(false));
